@@ -17,6 +17,9 @@ Sl(n, body) == [name |-> n, body |-> body]
 LayA == <<H("<h>"), Reserve("title", 1), H("</h><b>"), Reserve("content", 1), H("</b>")>>
 LayB == <<H("["), If(<<Br(Var("show"), <<H("+"), Reserve("a", 1)>>)>>, <<H("hidden")>>, 1), H("]"), Reserve("b", 1)>>
 LayC == <<Each("q", Var("items"), <<H("("), Reserve("row", 1), H(")")>>, <<H("none")>>, 1), H("/"), Reserve("foot", 1)>>
+\* reserves in the @else body of a loop and in the @else body of an @if
+LayD == <<Each("q", Var("items"), <<H("("), P(Var("q")), H(")")>>, <<H("none:"), Reserve("empty", 1)>>, 1), H("/"),
+          If(<<Br(Var("show"), <<H("+")>>)>>, <<H("alt:"), Reserve("alt", 1)>>, 1)>>
 \* contents an insert may have for reserve r
 InsForms(r) == {InsertB(r, <<H(r), H(":"), P(Var("t"))>>, 1), InsertE(r, StrL("lit-" \o r), 1), InsertE(r, Bin("+", Var("t"), StrL("!")), 1),
                 InsertB(r, <<If(<<Br(Var("show"), <<H("s")>>)>>, <<H("n")>>, 1)>>, 1)}
@@ -28,6 +31,7 @@ PagesA == {Stmts(i1) \o <<H(" junk ")>> \o Stmts(i2) : i1 \in Opt(InsForms("titl
           \cup {Stmts(i2) \o Stmts(i1) \o <<H("tail")>> : i1 \in Opt(InsForms("title")), i2 \in InsForms("content")}
 PagesB == {Stmts(i1) \o Stmts(i2) : i1 \in Opt(InsForms("a")), i2 \in Opt(InsForms("b"))}
 PagesC == {Stmts(i1) \o Stmts(i2) : i1 \in Opt(RowForms), i2 \in Opt(InsForms("foot"))}
+PagesD == {Stmts(i1) \o Stmts(i2) : i1 \in Opt(InsForms("empty")), i2 \in Opt(InsForms("alt"))}
 DataSets06 == {<<[n |-> "t", v |-> S("T")], [n |-> "show", v |-> B(sh)], [n |-> "items", v |-> A(it)]>> :
                  sh \in BOOLEAN, it \in {<<>>, <<I(1), I(2)>>}}
 Tree06(lay, pagebody, useRef) == [n \in {"layouts/main", "home"} |->
@@ -39,6 +43,7 @@ Good06 == {[tree |-> Tree06(<<H("<plain>"), P(Var("t"))>>, <<H("only text")>>, u
           \cup {[tree |-> Tree06(LayB, pb, u), page |-> "home", d |-> d, tags |-> <<"c06", "B">>] :
              pb \in PagesB, u \in {Ref("layouts/main"), Alias("main")}, d \in DataSets06}
           \cup {[tree |-> Tree06(LayC, pb, Alias("main")), page |-> "home", d |-> d, tags |-> <<"c06", "C">>] : pb \in PagesC, d \in DataSets06}
+          \cup {[tree |-> Tree06(LayD, pb, Alias("main")), page |-> "home", d |-> d, tags |-> <<"c06", "D">>] : pb \in PagesD, d \in DataSets06}
 \* insert naming no reserve, two inserts with one name, missing layout, layout that uses a layout
 D0 == CHOOSE d \in DataSets06 : TRUE
 Bad06 == {[tree |-> Tree06(LayA, <<InsertE("title", StrL("x"), 1), InsertE("nope", StrL("y"), 1)>>, Alias("main")), page |-> "home", d |-> D0, tags |-> <<"c06", "undefined-insert">>],
